@@ -113,6 +113,17 @@ def main():
         broken.append("check machinery raised: " + tb[-800:])
         rep.oblige("check machinery ran to completion", False, tb[-300:])
     finally:
+        for d in run.logdiffs[:1]:
+            try:
+                ops = open(d["ops_file"]).read().splitlines()
+            except OSError:
+                ops = []
+            rep.impl_spec_failures += 1
+            rep.violation("the result depends on the logging configuration: with the -l logger installed and RUST_LOG=trace the "
+                          f"implementation gives '{str(d['with_debug_logging'])[:200]}' where it gives '{str(d['without'])[:200]}' without "
+                          f"({len(run.logdiffs)} batch(es) of operations differ)",
+                          {"property": prop.id, "ops": ops, "env": {"RUST_LOG": "trace", "SQH_DEBUG_LOG": "1"}, "first_difference": d}, found_input=True)
+        rep.count("debug_log_twin_runs", run.n if run.debug_log_twin else 0)
         if not os.environ.get("VERIF_KEEP"):
             run.cleanup()
     if broken:
